@@ -55,13 +55,20 @@ Definition Phi (s : pstate) : N := lp s + 4 * rem s.
 Definition info_valid (t : T) : Prop :=
   forall i o, tget t i = Some o -> o_opcode o <> opFreed -> opInfo (o_infoIndex o) <> None.
 
-Record FI (s : pstate) (g : ghost) : Prop := mkFI {
+Record FIm (md : bool) (s : pstate) (g : ghost) : Prop := mkFIm {
   fi_R : R (p_tree s) g;
   fi_info : info_valid (p_tree s);
   fi_rok : rok (p_r s);
-  fi_skip : p_allBlocks s = false;
+  fi_skip : p_allBlocks s = md;
   fi_scopes : Forall (glive g) (p_scopeStack s)
 }.
+Arguments fi_R {md} s g _.
+Arguments fi_info {md} s g _.
+Arguments fi_rok {md} s g _.
+Arguments fi_skip {md} s g _.
+Arguments fi_scopes {md} s g _.
+(** [FI]: the invariant in the mode of the first pass (parseModeSkipAmbiguousBlocks) *)
+Notation FI := (FIm false).
 
 Record Ext (s0 : pstate) (g0 : ghost) (s : pstate) (g : ghost) : Prop := mkExt {
   ex_g : gext g0 g;
@@ -82,26 +89,26 @@ Proof.
 Qed.
 
 (** ---- the invariant and the components of the state ---- *)
-Lemma FI_with_r s g r1 : FI s g -> rok r1 -> FI (with_r s r1) g.
+Lemma FI_with_r {md} s g r1 : FIm md s g -> rok r1 -> FIm md (with_r s r1) g.
 Proof. intros [A B C D E] H. constructor; auto. Qed.
 
-Lemma FI_with_scope s g l : FI s g -> Forall (glive g) l -> FI (with_scopeStack s l) g.
+Lemma FI_with_scope {md} s g l : FIm md s g -> Forall (glive g) l -> FIm md (with_scopeStack s l) g.
 Proof. intros [A B C D E] H. constructor; auto. Qed.
 
-Lemma FI_with_pkgEnd s g l : FI s g -> FI (with_pkgEndStack s l) g.
+Lemma FI_with_pkgEnd {md} s g l : FIm md s g -> FIm md (with_pkgEndStack s l) g.
 Proof. intros [A B C D E]. constructor; auto. Qed.
 
-Lemma FI_with_tree s g t' g' :
-  FI s g -> R t' g' -> info_valid t' -> (forall x, glive g x -> glive g' x) -> FI (with_tree s t') g'.
+Lemma FI_with_tree {md} s g t' g' :
+  FIm md s g -> R t' g' -> info_valid t' -> (forall x, glive g x -> glive g' x) -> FIm md (with_tree s t') g'.
 Proof.
   intros [A B C D E] HR Hi Hl. constructor; auto. cbn [p_scopeStack with_tree].
   eapply Forall_impl; [|exact E]. exact Hl.
 Qed.
 
-Lemma FI_live_get s g p : FI s g -> glive g p -> exists o, tget (p_tree s) p = Some o /\ o_opcode o <> opFreed.
+Lemma FI_live_get {md} s g p : FIm md s g -> glive g p -> exists o, tget (p_tree s) p = Some o /\ o_opcode o <> opFreed.
 Proof. intros H Hl. apply (R_live_glive _ _ (fi_R _ _ H)) in Hl. exact Hl. Qed.
 
-Lemma FI_ObjectAt s g p : FI s g -> glive g p -> ObjectAt (p_tree s) p = Some p.
+Lemma FI_ObjectAt {md} s g p : FIm md s g -> glive g p -> ObjectAt (p_tree s) p = Some p.
 Proof.
   intros H Hl. destruct (FI_live_get _ _ _ H Hl) as (o & Hg & Ho).
   eapply ObjectAt_live; eauto. apply (R_bound _ _ (fi_R _ _ H)).
@@ -125,11 +132,11 @@ Proof.
   - eapply Hi; eauto.
 Qed.
 
-Lemma FI_tset s g p f :
-  FI s g ->
+Lemma FI_tset {md} s g p f :
+  FIm md s g ->
   (forall o, tget (p_tree s) p = Some o -> lk_eq o (f o)) ->
   (forall o, tget (p_tree s) p = Some o -> o_opcode o <> opFreed -> opInfo (o_infoIndex (f o)) <> None) ->
-  FI (with_tree s (tset (p_tree s) p f)) g.
+  FIm md (with_tree s (tset (p_tree s) p f)) g.
 Proof.
   intros H Hlk Hinf. apply FI_with_tree with (g := g); auto.
   - apply R_tset_lk; [apply (fi_R _ _ H)|exact Hlk].
@@ -268,10 +275,10 @@ Lemma wp_scopeEnter P i s (Q : unit -> pstate -> Prop) :
 Proof. intros H. exact H. Qed.
 
 (** ---- steps on the tree, with the invariant ---- *)
-Lemma new_step P opc s g (Q : N -> pstate -> Prop) :
-  FI s g -> newok opc -> lp s + 1 < InvalidIndex ->
+Lemma new_step {md} P opc s g (Q : N -> pstate -> Prop) :
+  FIm md s g -> newok opc -> lp s + 1 < InvalidIndex ->
   (forall p t' g' po,
-     FI (with_tree s t') g' -> gext g g' -> ~ glive g p -> glive g' p -> groot g' p -> kids g' p = [] ->
+     FIm md (with_tree s t') g' -> gext g g' -> ~ glive g p -> glive g' p -> groot g' p -> kids g' p = [] ->
      tget t' p = Some po -> o_opcode po = opc -> o_value po = None ->
      opcodeTableIndex opc true = Some (o_infoIndex po) ->
      (length (t_pool t') <= S (length (t_pool (p_tree s))))%nat ->
@@ -298,12 +305,12 @@ Proof.
   - rewrite <- Hii. exact Hi0.
 Qed.
 
-Lemma wrf_step P p f s g (Q : unit -> pstate -> Prop) :
-  FI s g -> glive g p ->
+Lemma wrf_step {md} P p f s g (Q : unit -> pstate -> Prop) :
+  FIm md s g -> glive g p ->
   (forall o, o_opcode o <> opFreed -> lk_eq o (f o)) ->
   (forall o, o_opcode o <> opFreed -> opInfo (o_infoIndex o) <> None -> opInfo (o_infoIndex (f o)) <> None) ->
   (forall o, tget (p_tree s) p = Some o -> o_opcode o <> opFreed ->
-             FI (with_tree s (tset (p_tree s) p f)) g -> Q tt (with_tree s (tset (p_tree s) p f))) ->
+             FIm md (with_tree s (tset (p_tree s) p f)) g -> Q tt (with_tree s (tset (p_tree s) p f))) ->
   wp P (wrf p f) s Q.
 Proof.
   intros H Hl Hlk Hinf K. destruct (FI_live_get _ _ _ H Hl) as (o & Hg & Ho).
@@ -312,9 +319,9 @@ Proof.
   - intros o' Hg' Ho'. apply Hinf; auto. apply (fi_info _ _ H _ _ Hg' Ho').
 Qed.
 
-Lemma append_step P o a s g g0 (Q : unit -> pstate -> Prop) :
-  FI s g -> gwf g0 -> gext g0 g -> glive g0 o -> ~ glive g0 a -> glive g a -> groot g a ->
-  (forall t', FI (with_tree s t') (astep g (OpAppend o a)) -> gext g0 (astep g (OpAppend o a)) ->
+Lemma append_step {md} P o a s g g0 (Q : unit -> pstate -> Prop) :
+  FIm md s g -> gwf g0 -> gext g0 g -> glive g0 o -> ~ glive g0 a -> glive g a -> groot g a ->
+  (forall t', FIm md (with_tree s t') (astep g (OpAppend o a)) -> gext g0 (astep g (OpAppend o a)) ->
               pframe (p_tree s) t' -> kids (astep g (OpAppend o a)) o = kids g o ++ [a] ->
               (forall q, q <> o -> kids (astep g (OpAppend o a)) q = kids g q) ->
               Q tt (with_tree s t')) ->
@@ -331,9 +338,9 @@ Proof.
   - intros q Hq. cbn [astep]. rewrite kids_set_kids by auto. apply N.eqb_neq in Hq. rewrite Hq. reflexivity.
 Qed.
 
-Lemma appendAfter_step P o a n s g g0 (Q : unit -> pstate -> Prop) :
-  FI s g -> gwf g0 -> gext g0 g -> glive g0 o -> ~ glive g0 a -> glive g a -> groot g a -> In n (kids g o) ->
-  (forall t', FI (with_tree s t') (astep g (OpAppendAfter o a n)) -> gext g0 (astep g (OpAppendAfter o a n)) ->
+Lemma appendAfter_step {md} P o a n s g g0 (Q : unit -> pstate -> Prop) :
+  FIm md s g -> gwf g0 -> gext g0 g -> glive g0 o -> ~ glive g0 a -> glive g a -> groot g a -> In n (kids g o) ->
+  (forall t', FIm md (with_tree s t') (astep g (OpAppendAfter o a n)) -> gext g0 (astep g (OpAppendAfter o a n)) ->
               pframe (p_tree s) t' -> kids (astep g (OpAppendAfter o a n)) o = insert_after n a (kids g o) ->
               Q tt (with_tree s t')) ->
   wp P (tu (fun t => appendAfter t o a n)) s Q.
